@@ -11,9 +11,9 @@ specfun("om_shared", ["m"], "same_object(om_lm(m)._ctx.account_balances, om_acc(
                             "and same_object(om_lm(m)._ctx.config, m._ctx.config) and same_object(om_lm(m)._ctx.dispatcher, m._ctx.dispatcher)")
 # amounts live on the pair's precision grid (request validation puts them there; fills keep them there -- C08)
 specfun("order_grid", ["m", "o"], "grid(o._amount, cfg_pair_info(om_cfg(m), o._pair).base_precision) "
-                                  "and grid(at(o._balance_updates, ob(o)), cfg_pair_info(om_cfg(m), o._pair).base_precision) "
-                                  "and grid(at(o._balance_updates, oq(o)), cfg_pair_info(om_cfg(m), o._pair).quote_precision) "
-                                  "and grid(at(o._fees, oq(o)), cfg_pair_info(om_cfg(m), o._pair).quote_precision)")
+                                  "and grid(at(o._balance_updates, ob(o)), cfg_pair_info(om_cfg(m), o._pair).base_precision)")
+specfun("order_grid_q", ["m", "o"], "grid(at(o._balance_updates, oq(o)), cfg_pair_info(om_cfg(m), o._pair).quote_precision) "
+                                    "and grid(at(o._fees, oq(o)), cfg_pair_info(om_cfg(m), o._pair).quote_precision)")
 specfun("om_orders_wf", ["m"], "forall(lambda k=Id: implies(k in m._orders._items, m._orders._items[k]._id == k and order_wf(m._orders._items[k]) "
                                "and wf_config(om_cfg(m), m._orders._items[k]._pair) and order_grid(m, m._orders._items[k])))")
 # holds are kept only on behalf of open orders, and never negative
@@ -57,7 +57,9 @@ contract(OM + "_round_balance_updates", props=P + ["C04"], types={"balance_updat
                   ("base", "at(balance_updates, pair.base_symbol) == q_down(old(at(balance_updates, pair.base_symbol)), cfg_pair_info(om_cfg(self), pair).base_precision)"),
                   ("quote", "at(balance_updates, pair.quote_symbol) == q_he(old(at(balance_updates, pair.quote_symbol)), cfg_pair_info(om_cfg(self), pair).quote_precision)"),
                   ("others", "forall(lambda s=Str: implies(s != pair.base_symbol and s != pair.quote_symbol, at(balance_updates, s) == old(at(balance_updates, s))))"),
-                  ("pruned", "forall(lambda s=Str: (s in balance_updates) == (old(s in balance_updates) and at(balance_updates, s) != 0))")],
+                  ("pruned", "forall(lambda s=Str: (s in balance_updates) == (old(s in balance_updates) and at(balance_updates, s) != 0))"),
+                  ("grid", "grid(at(balance_updates, pair.base_symbol), cfg_pair_info(om_cfg(self), pair).base_precision) "
+                           "and grid(at(balance_updates, pair.quote_symbol), cfg_pair_info(om_cfg(self), pair).quote_precision)")],
          raises={"Error!": [("missing", "not cfg_has_pair(om_cfg(self), pair)"), ("unchanged", "content_unchanged(balance_updates)")]},
          modifies=["content(balance_updates)"])
 specfun("rounded_fee", ["cfg", "pair", "s", "x"],
@@ -69,7 +71,9 @@ contract(OM + "_round_fees", props=P, types={"fees": "ValueMap"},
                   ("base", "at(fees, pair.base_symbol) == q_up(old(at(fees, pair.base_symbol)), cfg_pair_info(om_cfg(self), pair).base_precision)"),
                   ("quote", "at(fees, pair.quote_symbol) == q_up(old(at(fees, pair.quote_symbol)), cfg_pair_info(om_cfg(self), pair).quote_precision)"),
                   ("others", "forall(lambda s=Str: implies(s != pair.base_symbol and s != pair.quote_symbol, at(fees, s) == old(at(fees, s))))"),
-                  ("pruned", "forall(lambda s=Str: (s in fees) == (old(s in fees) and at(fees, s) != 0))")],
+                  ("pruned", "forall(lambda s=Str: (s in fees) == (old(s in fees) and at(fees, s) != 0))"),
+                  ("grid", "grid(at(fees, pair.base_symbol), cfg_pair_info(om_cfg(self), pair).base_precision) "
+                           "and grid(at(fees, pair.quote_symbol), cfg_pair_info(om_cfg(self), pair).quote_precision)")],
          raises={"Error!": [("missing", "not cfg_has_pair(om_cfg(self), pair)"), ("unchanged", "content_unchanged(fees)")]},
          modifies=["content(fees)"],
          loops={0: dict(invariant=[
@@ -246,7 +250,9 @@ specfun("holds_total_eq", ["m"], "TRUE")
 contract(OM + "_order_closed", props=P + ["C11"],
          requires=[("ctx", "om_ctx_wf(self)"), ("lm", "lm_inv(om_lm(self))"), ("closed", "not st_open(order)"), ("order", "order_wf(order)"),
                    ("collateral_free", "om_lm(self)._lending_strategy.no_collateral"),
-                   ("holds_nonneg", "om_holds_nonneg(self)"), ("holds_sum", "om_holds_sum(self)"),
+                   ("holds_nonneg", "om_holds_nonneg(self)"),
+                   # what the order reserved is really on hold (callers get it from holds == sum of reservations)
+                   ("cover", "implies(order._id in self._holds_by_order, forall(lambda s=Str: at(oh_of(self, order), s) <= at(om_acc(self).holds, s)))"),
                    ("clock", "implies(order._auto_repay and filled(order) != 0, clock_ok(om_lm(self)) and "
                              "forall(lambda k=Id: implies(k in om_lm(self)._loans._items, now_of(om_lm(self)) >= om_lm(self)._loans._items[k]._created_at)))")],
          ensures=BORROW_LM + [
@@ -255,11 +261,10 @@ contract(OM + "_order_closed", props=P + ["C11"],
                                "and forall(lambda k=Id: implies(k != order._id, ((k in self._holds_by_order) == old(k in self._holds_by_order)) "
                                "and implies(k in self._holds_by_order, same_object(self._holds_by_order[k], old(self._holds_by_order[k])))))"),
                   ("holds", "forall(lambda s=Str: at(om_acc(self).holds, s) == old(at(om_acc(self).holds, s)) - (old(at(oh_of(self, order), s)) if old(order._id in self._holds_by_order) else 0))"),
-                  ("holds_nonneg", "om_holds_nonneg(self)"), ("holds_sum", "om_holds_sum(self)"),
+                  ("holds_nonneg", "om_holds_nonneg(self)"), ("holds_gap", "holds_gap_same(self)"),
                   ("ledger", "forall(lambda s=Str: (at(om_acc(self).balances, s) - at(om_acc(self).borrowed, s)) - old(at(om_acc(self).balances, s) - at(om_acc(self).borrowed, s)) "
                              "== GHOST.ledger[s] - old(GHOST.ledger[s]))")],
-         axioms=[("bound", "ax_hold_bound(self, order._id)"), ("step", "ax_hold_step(self, order._id)")],
-         hints=[("cover", "implies(order._id in self._holds_by_order, forall(lambda s=Str: at(oh_of(self, order), s) <= at(om_acc(self).holds, s)))")],
+         axioms=[("step", "ax_hold_step(self, order._id)")],
          # statement-derived: closing an order never fails ("released in full when the order closes for any reason")
          raises={},
          modifies=ACC3 + ["content(self._holds_by_order)", "content(self._holds_by_order[order._id])",
@@ -281,8 +286,6 @@ PO_REQ = [("ctx", "om_ctx_wf(self)"), ("lm", "lm_inv(om_lm(self))"), ("collatera
                     "and forall(lambda k=Id: implies(k in om_lm(self)._loans._items, now_of(om_lm(self)) >= om_lm(self)._loans._items[k]._created_at))")]
 PO_INV = [("order_wf", "order_wf(order)"),
           ("order_grid_base", "grid(at(order._balance_updates, ob(order)), bp_of(self, order))"),
-          ("order_grid_quote", "grid(at(order._balance_updates, oq(order)), qp_of(self, order))"),
-          ("order_grid_fees", "grid(at(order._fees, oq(order)), qp_of(self, order))"),
           ("inv_ctx", "om_ctx_wf(self)"), ("inv_lm_acc", "lm_acc(om_lm(self))"), ("inv_lm_coll_dom", "lm_coll_dom(om_lm(self))"),
           ("inv_lm_coll_nonneg", "lm_coll_nonneg(om_lm(self))"), ("inv_lm_loans_wf", "lm_loans_wf(om_lm(self))"),
           ("inv_orders_wf", "om_orders_wf(self)"), ("inv_holds_dom", "om_holds_dom(self)"), ("inv_holds_nonneg", "om_holds_nonneg(self)"),
